@@ -1,6 +1,8 @@
 """C01 -- note names <-> pitch classes (mingus/core/notes.py).  See DESIGN.md section C01."""
 from __future__ import annotations
 
+import itertools
+
 from ..engine.absval import Lin, Sym, Ch, Run, AbsStr, Rep, Sel, Opaque, INF
 from ..engine.absint import CannotDecide
 from ..engine.loader import AnalysisError, short
@@ -126,10 +128,13 @@ def rule_folds(ctx, mod, f):
 def rule_validity(ctx, mod, f):
     R = "R-C01-3"
     other_tail = nd.other_class({"#", "b"}, "OTHERTAIL")
-    other_head = nd.other_class(set(LETTERS), "OTHERHEAD")
-    heads = [(L, True) for L in LETTERS] + [(other_head, False)]
+    # heads that are no letter: an accidental sign in the first place, or anything else (two classes, so that code which
+    # looks at the signs -- strip('#b'), count('#') -- is decided on each)
+    other_head = nd.other_class(set(LETTERS) | {"#", "b"}, "OTHERHEAD")
+    acc_head = Ch("ACCHEAD", {"#", "b"})
+    heads = [(L, True) for L in LETTERS] + [(other_head, False), (acc_head, False)]
     for head, head_ok in heads:
-        hname = head if isinstance(head, str) else "OTHER"
+        hname = head if isinstance(head, str) else ("OTHER" if head is other_head else "ACCIDENTAL")
         run = Run("T", [SHARP, FLAT, other_tail])
         s = AbsStr([head, run])
         # is_valid_note: True exactly when the head is a letter and no OTHER character occurs
@@ -188,6 +193,7 @@ def rule_validity(ctx, mod, f):
 # ------------------------------------------------------------------ R-C01-4
 def rule_aug_dim(ctx, mod, f):
     R = "R-C01-4"
+    undecided = []
     for fname, want in (("augment", 1), ("diminish", -1)):
         fi = f[fname]
         for L in LETTERS:
@@ -195,7 +201,13 @@ def rule_aug_dim(ctx, mod, f):
             shapes = {"bare": AbsStr([L]), "ends#": AbsStr([L, run, "#"]), "endsb": AbsStr([L, run, "b"])}
             for sname, s in shapes.items():
                 _, net_in, _ = decompose(s)
-                paths = paths_of(ctx.repo, fi, [s])
+                try:
+                    paths = paths_of(ctx.repo, fi, [s])
+                except CannotDecide as e:
+                    # the function looks at the order of the signs inside the name (find, a scan): no statement about
+                    # "any accidentals in any order" can be made; the spellings of the battery below stand in for it
+                    undecided.append("%s[%s,%s]: %s" % (fname, L, sname, e))
+                    continue
                 ok, why = bool(paths), ""
                 for p in paths:
                     if p.kind != "return":
@@ -214,6 +226,36 @@ def rule_aug_dim(ctx, mod, f):
                         break
                 ctx.check(ok, R, "%s[%s,%s]" % (fname, L, sname), _loc(fi), "%s(%s:%s)" % (fname, L, sname),
                           "%s on a name with shape %s: %s" % (fname, sname, why))
+        # every spelling with up to four signs in every order, evaluated as it stands: same letter, only signs after it,
+        # the pitch class moves by exactly one
+        bad, n = None, 0
+        for L in LETTERS:
+            for k in range(0, 5):
+                for signs in itertools.product("#b", repeat=k):
+                    name = L + "".join(signs)
+                    n += 1
+                    try:
+                        paths = paths_of(ctx.repo, fi, [name])
+                    except CannotDecide as e:
+                        raise AnalysisError("%s(%r): %s" % (fname, name, e))
+                    if len(paths) != 1 or paths[0].kind != "return" or not isinstance(paths[0].value, str):
+                        bad = "%s(%r) gives %s" % (fname, name, [(p.kind, p.value) for p in paths])
+                        break
+                    r = paths[0].value
+                    if not r or r[0] != L or set(r[1:]) - {"#", "b"}:
+                        bad = "%s(%r) == %r: not the same letter followed by signs" % (fname, name, r)
+                        break
+                    if (r.count("#") - r.count("b")) - (name.count("#") - name.count("b")) != want:
+                        bad = "%s(%r) == %r: the pitch class moves by %+d, expected %+d" % (
+                            fname, name, r, (r.count("#") - r.count("b")) - (name.count("#") - name.count("b")), want)
+                        break
+                if bad:
+                    break
+            if bad:
+                break
+        ctx.check(bad is None, R, "%s[spellings]" % fname, _loc(fi), "%s on %d spellings (letter + up to four signs in any order)" % (fname, n), bad or "")
+    if undecided:
+        ctx.note(R, "the order-independent statement could not be made for %d shapes (%s); the spellings battery decides them up to four signs" % (len(undecided), undecided[0]))
 
 
 # ------------------------------------------------------------------ R-C01-5
